@@ -1,7 +1,7 @@
 """Shared machinery for the wencry verification checks: building harnesses from /repo's
 working tree, running TLC, sharded trace validation, known findings, evidence."""
 import concurrent.futures as cf
-import glob, hashlib, json, os, random, re, shutil, subprocess, sys, time
+import contextlib, fcntl, glob, hashlib, json, os, random, re, shutil, subprocess, sys, time
 
 VERIF = os.path.dirname(os.path.dirname(os.path.abspath(__file__)))
 REPO = os.environ.get("WV_REPO", "/repo")
@@ -63,10 +63,22 @@ def _digest(paths, extra):
     return h.hexdigest()[:20]
 
 
+@contextlib.contextmanager
+def locked(path):
+    """Inter-process lock (several checks may run at once and share the build / graph cache)."""
+    os.makedirs(os.path.dirname(path), exist_ok=True)
+    with open(path + ".lock", "w") as f:
+        fcntl.flock(f, fcntl.LOCK_EX)
+        try:
+            yield
+        finally:
+            fcntl.flock(f, fcntl.LOCK_UN)
+
+
 def prune_cache(keep=24):
     if not os.path.isdir(CACHE):
         return
-    ds = [os.path.join(CACHE, d) for d in os.listdir(CACHE) if os.path.isdir(os.path.join(CACHE, d)) and not d.startswith("tlc")]
+    ds = [os.path.join(CACHE, d) for d in os.listdir(CACHE) if os.path.isdir(os.path.join(CACHE, d)) and not d.startswith("tlc") and d != "locks"]
     ds.sort(key=os.path.getmtime, reverse=True)
     for d in ds[keep:]:
         shutil.rmtree(d, ignore_errors=True)
@@ -88,6 +100,13 @@ def build(name, groups, harness_srcs, flags=(), sanitize=True, opt="-O1", cxx="g
     exe = os.path.join(d, name)
     if os.path.exists(exe):
         os.utime(d, None)
+        return exe
+    with locked(os.path.join(CACHE, "locks", key)):
+        return _build_locked(name, d, exe, srcs, hs, allflags, cxx, extra_link, force_include)
+
+
+def _build_locked(name, d, exe, srcs, hs, allflags, cxx, extra_link, force_include):
+    if os.path.exists(exe):
         return exe
     os.makedirs(os.path.join(d, "generated"), exist_ok=True)
     with open(os.path.join(d, "generated", "config.h"), "w") as f:
